@@ -1976,7 +1976,14 @@ impl<const MIN_ALIGN: usize> Bump<MIN_ALIGN> {
             debug_assert!(!aligned_ptr.is_null());
             let aligned_ptr = NonNull::new_unchecked(aligned_ptr);
 
-            footer.ptr.set(aligned_ptr);
+            // Do not store an unchanged finger. The only requests that can
+            // succeed while the current chunk is the shared, static
+            // `EMPTY_CHUNK` are zero-sized ones that leave the finger where it
+            // is, and that static must never be written to: the arenas of
+            // other threads read it concurrently.
+            if aligned_ptr.as_ptr() != ptr {
+                footer.ptr.set(aligned_ptr);
+            }
             Some(aligned_ptr)
         }
     }
@@ -2234,7 +2241,11 @@ impl<const MIN_ALIGN: usize> Bump<MIN_ALIGN> {
     unsafe fn dealloc(&self, ptr: NonNull<u8>, layout: Layout) {
         // If the pointer is the last allocation we made, we can reuse the bytes,
         // otherwise they are simply leaked -- at least until somebody calls reset().
-        if self.is_last_allocation(ptr) {
+        //
+        // Zero-sized allocations have nothing to give back, and "freeing" one
+        // must not store to the bump finger: it may live in the shared, static
+        // `EMPTY_CHUNK`.
+        if layout.size() != 0 && self.is_last_allocation(ptr) {
             let ptr = self.current_chunk_footer.get().as_ref().ptr.get();
             let ptr = ptr.as_ptr().add(layout.size());
 
@@ -2289,7 +2300,8 @@ impl<const MIN_ALIGN: usize> Bump<MIN_ALIGN> {
         // the requested alignment.
         let delta = round_down_to(old_size - new_size, new_layout.align().max(MIN_ALIGN));
 
-        if self.is_last_allocation(ptr)
+        if delta != 0
+            && self.is_last_allocation(ptr)
                 // Only reclaim the excess space (which requires a copy) if it
                 // is worth it: we are actually going to recover "enough" space
                 // and we can do a non-overlapping copy.
